@@ -5,6 +5,10 @@ From Coq Require Import ZArith List Bool Lia Sorting.Permutation Sorting.Sorted.
 From TV Require Import Lib.MachInt Gen.Varint Model.BTree Model.BTreeSpec Model.BTreeInv Proof.BTreeOrder.
 Import ListNotations.
 Open Scope Z_scope.
+Arguments Z.sub : simpl never.
+Arguments Z.add : simpl never.
+Arguments Z.mul : simpl never.
+Arguments Z.of_nat : simpl never.
 
 Lemma lo_ok_iff lo k : lo_ok lo k <-> match lo with None => True | Some a => ~ klt k a end.
 Proof. destruct lo; cbn; unfold klt; tauto. Qed.
@@ -67,7 +71,10 @@ Proof. unfold kabs, kleaves, BTree.abs. cbn. rewrite <- app_assoc. rewrite flat_
 Lemma kleaves_cons h' sc rest r : kleaves h' (sc :: rest) r = leaves h' (snd sc) ++ kleaves h' rest r.
 Proof. unfold kleaves. cbn. rewrite <- app_assoc. reflexivity. Qed.
 Lemma kabs_app h' a b r : kabs h' (a ++ b) r = flat_map (fun sc : kid => abs h' (snd sc)) a ++ kabs h' b r.
-Proof. induction a as [|x a IH]; cbn; [reflexivity|]. rewrite kabs_cons, IH, app_assoc. reflexivity. Qed.
+Proof.
+  induction a as [|x a IH]; [reflexivity|]. change ((x :: a) ++ b) with (x :: (a ++ b)).
+  rewrite kabs_cons, IH. cbn [flat_map]. rewrite app_assoc. reflexivity.
+Qed.
 
 Lemma child_at_0 sc rest (r : tree) : child_at V (sc :: rest) r 0 = snd sc.
 Proof. reflexivity. Qed.
@@ -86,10 +93,13 @@ Proof.
   destruct i; [rewrite set_child_0; reflexivity|]. rewrite set_child_S. cbn. f_equal. apply IH.
 Qed.
 Lemma set_child_length kids (r : tree) i c : length (fst (set_child V kids r i c)) = length kids.
-Proof. rewrite <- (map_length fst), set_child_seps, map_length. reflexivity. Qed.
+Proof.
+  revert i. induction kids as [|sc rest IH]; intros i; [rewrite set_child_nil; reflexivity|].
+  destruct i; [rewrite set_child_0; reflexivity|]. rewrite set_child_S. cbn. f_equal. apply IH.
+Qed.
 
 Lemma lo_at_S lo sc (rest : list kid) j : lo_at V lo (sc :: rest) (S j) = lo_at V (Some (fst sc)) rest j.
-Proof. destruct j; reflexivity. Qed.
+Proof. reflexivity. Qed.
 Lemma hi_at_S hi sc (rest : list kid) j : hi_at V hi (sc :: rest) (S j) = hi_at V hi rest j.
 Proof. reflexivity. Qed.
 Lemma cidx_le k (kids : list kid) : (cidx V k kids <= length kids)%nat.
@@ -143,13 +153,12 @@ Proof.
   induction a as [|x a IH]; intros lo hi s c b r; cbn.
   - tauto.
   - rewrite IH. split.
-    + intros (H1 & H2 & H3 & H4 & H5 & H6 & H7). repeat split; try assumption.
-      * exact H6.
-      * eapply lo_lt_trans; [exact H1 | exact H6].
-    + intros ((H1 & H2 & H3 & H4) & H5 & H6 & H7). repeat split; try assumption.
-      destruct a as [|y a]; cbn in H4.
-      * exact H2.
-      * exact H2.
+    + intros (H1 & H2 & H3 & H4 & H5 & H6 & H7).
+      split; [split; [exact H1 | split; [exact H6 | split; [exact H3 | exact H4]]]|].
+      split; [exact H5|]. split; [eapply lo_lt_trans; [exact H1 | exact H6] | exact H7].
+    + intros ((H1 & H2 & H3 & H4) & H5 & H6 & H7).
+      split; [exact H1|]. split; [eapply hi_ok_lt; [exact H2 | exact H7]|]. split; [exact H3|].
+      split; [exact H4|]. split; [exact H5|]. split; [exact H2 | exact H7].
 Qed.
 
 (* ---------------------------------------------------------------- multiset view of a child replacement *)
@@ -212,6 +221,51 @@ Proof.
   induction h as [|h' IH]; intros lo hi t HB; destruct t as [l | id kids r]; cbn in HB; try contradiction.
   - rewrite abs_leaf. apply HB.
   - destruct HB as [_ HB]. rewrite abs_node. eapply kabs_sorted; eassumption.
+Qed.
+
+(* ---------------------------------------------------------------- routing reaches the only possible leaf *)
+Lemma leaves_child_incl h' kids : forall (r : tree) i l, In l (leaves h' (child_at V kids r i)) -> In l (kleaves h' kids r).
+Proof.
+  induction kids as [|sc rest IH]; intros r i l H.
+  - unfold child_at in H. destruct i; exact H.
+  - rewrite kleaves_cons. apply in_or_app. destruct i as [|j]; [left; exact H | right; eapply IH; exact H].
+Qed.
+
+Lemma route_in_leaves : forall h (t : tree) k l, route V h t k = Some l -> In l (leaves h t).
+Proof.
+  induction h as [|h' IH]; intros t k l H; destruct t as [l0 | id kids r]; cbn in H; try discriminate.
+  - injection H as <-. left. reflexivity.
+  - injection H as <-. left. reflexivity.
+  - rewrite leaves_node. eapply leaves_child_incl. eapply IH. exact H.
+Qed.
+
+Lemma leaf_cells_in_abs h (t : tree) l c : In l (leaves h t) -> In c (lcells l) -> In c (abs h t).
+Proof. intros Hl Hc. unfold BTree.abs. apply in_flat_map. exists l. split; assumption. Qed.
+
+Lemma kabs_key_in_child h' kids : forall lo hi (r : tree) k,
+  kids_bounded (bounded h') lo hi kids r -> lo_ok lo k -> hi_ok hi k ->
+  forall c, In c (kabs h' kids r) -> fst c = k -> In c (abs h' (child_at V kids r (cidx V k kids))).
+Proof.
+  induction kids as [|sc rest IH]; intros lo hi r k HB Hlo Hhi c Hin Hk.
+  - exact Hin.
+  - destruct HB as (Hls & Hhs & Hc & Hrest). rewrite kabs_cons in Hin. apply in_app_or in Hin. cbn [cidx].
+    destruct (kltb k (fst sc)) eqn:E.
+    + apply kltb_true in E. rewrite child_at_0. destruct Hin as [Hin | Hin]; [exact Hin|]. exfalso.
+      pose proof (kabs_in_bounds h' (abs_in_bounds h') _ _ _ _ Hrest) as B. unfold BTreeInv.cells_in in B.
+      rewrite Forall_forall in B. destruct (B _ Hin) as [B1 _]. cbn in B1. rewrite Hk in B1. exact (B1 E).
+    + apply kltb_false in E. rewrite child_at_S. destruct Hin as [Hin | Hin]; [exfalso | eapply IH; eassumption].
+      pose proof (abs_in_bounds _ _ _ _ Hc) as B. unfold BTreeInv.cells_in in B.
+      rewrite Forall_forall in B. destruct (B _ Hin) as [_ B2]. cbn in B2. rewrite Hk in B2. exact (E B2).
+Qed.
+
+Lemma route_spec : forall h lo hi (t : tree) k, bounded h lo hi t -> lo_ok lo k -> hi_ok hi k ->
+  exists l, route V h t k = Some l /\ forall c, In c (abs h t) -> fst c = k -> In c (lcells l).
+Proof.
+  induction h as [|h' IH]; intros lo hi t k HB Hlo Hhi; destruct t as [l | id kids r]; cbn in HB; try contradiction.
+  - exists l. split; [reflexivity|]. intros c Hc _. rewrite abs_leaf in Hc. exact Hc.
+  - destruct HB as [_ HB]. destruct (kids_child _ kids lo hi r k HB Hlo Hhi) as (Hc & Hl & Hh).
+    destruct (IH _ _ _ k Hc Hl Hh) as (l & Hr & Hin). exists l. split; [exact Hr|].
+    intros c Hc1 Hk. apply Hin; [|exact Hk]. rewrite abs_node in Hc1. eapply kabs_key_in_child; eassumption.
 Qed.
 
 End P.
